@@ -1,7 +1,7 @@
 (* Correspondence for the converter (C01 C07 C09 C10): the declarations the real generator
    emitted (read back with go/ast, import aliases replaced by package paths) against
    Gen/Convert.v run on the exported AST. *)
-From Verif Require Import Base.Str Base.Sort Gen.Consts Gen.Casing Gen.Gql Gen.Doc Gen.Directive Gen.Convert.
+From Verif Require Import Base.Str Base.Sort Gen.Consts Gen.Casing Gen.Gql Gen.Doc Gen.Directive Gen.Convert Gen.Wf.
 
 Inductive odecl :=
 | OStruct (name : str) (fields : list (str * str * str))          (* Go field name ("" embedded), type, json tag *)
@@ -75,7 +75,15 @@ Definition conv_model (c : conv_case) : res (typemap * list opinfo) :=
   generate_types sch (v_cfg c) (map (pre_frag sch) (v_frags c)) (v_srcs c)
                  (sort_by op_name (map (pre_op sch) (v_ops c))).
 
+(* the hypotheses of Proofs/ConvertNoPanic.v hold of the program as exported (every type name,
+   fragment and root type resolves): what the validator guarantees for an accepted document *)
+Definition conv_wf (c : conv_case) : bool :=
+  let sch := v_schema c in
+  let frs := map (pre_frag sch) (v_frags c) in
+  schema_okb sch && frags_okb sch frs && forallb (op_okb sch frs) (map (pre_op sch) (v_ops c)).
+
 Definition conv_agrees (c : conv_case) : bool :=
+  conv_wf c &&
   match conv_model c, v_obs c with
   | Ok (tm, infos), ObsOk ds os =>
       list_eqb odecl_eqb (render tm) ds
